@@ -19,6 +19,7 @@
 #define _GNU_SOURCE
 #include <dlfcn.h>
 #include <errno.h>
+#include <sys/syscall.h>
 #include <fcntl.h>
 #include <pthread.h>
 #include <stdarg.h>
@@ -34,7 +35,7 @@
 static char *fdname[MAXFD];
 static pthread_mutex_t mu = PTHREAD_MUTEX_INITIALIZER;
 static int logfd = -2;
-static long fail_at = 0, counter = 0;
+static long fail_at = 0, counter = 0, fail_tid = 0;
 
 static int (*real_open)(const char *, int, ...);
 static int (*real_open64)(const char *, int, ...);
@@ -93,6 +94,8 @@ static int is_store_file(const char *p) { return p && strstr(base(p), ".bitcask.
 /* returns 1 if this mutating call must fail */
 static int should_fail(const char *kind, const char *name) {
   if (fail_at <= 0) return 0;
+  /* only calls of the thread that armed the injector count: the operations of a case run on it */
+  if (fail_tid != 0 && fail_tid != (long)syscall(SYS_gettid)) return 0;
   counter++;
   if (counter == fail_at) {
     logf_("fail %s %s\n", kind, name);
@@ -202,7 +205,7 @@ int unlink(const char *path) {
   if (path && strncmp(path, "/__iorec__/", 11) == 0) {
     pthread_mutex_lock(&mu);
     const char *t = path + 11;
-    if (strncmp(t, "failat ", 7) == 0) { fail_at = atol(t + 7); counter = 0; }
+    if (strncmp(t, "failat ", 7) == 0) { fail_at = atol(t + 7); counter = 0; fail_tid = (long)syscall(SYS_gettid); }
     logf_("mark %s\n", t);
     pthread_mutex_unlock(&mu);
     errno = ENOENT;
